@@ -2,17 +2,20 @@
 Model/Overload — the overload plugin (plugin/overloader/{overloader,connlimiter,qpslimiter}.go) as coded,
 composed with the accept path (peer.go ServeConn / serveListener: postAccept hook, on reject
 `sess.Close()`) and the close paths (session.go closeLocked / readDisconnected: `postDisconnect`
-runs for EVERY session they close, including one that an accept hook rejected).
+runs for EVERY session they close, including one that an accept hook rejected; the plugin's
+`PostDisconnect` releases only for a session it recorded in `connHolders` on a successful take).
 
 Three layers, all core Lean:
   1. sequential functions: what each Go function does when it runs to completion without
      interference (`CL.take`, `CL.release`, `QL.take`, `QL.tick`, `OV.update`, `OV.readHeader`,
      `Sys.connect`, `Sys.close`) — these are what the correspondence harness replays;
   2. the connection limiter as an interleaving transition system, one step per atomic operation
-     (`Step`: limiter with releases only by admitted entities; `UStep`: + `update`; `CStep`: + the
-     release that the accept path performs for a rejected connection — the system as coded);
+     (`Step`: the operations of `take`, and of `release` — which the plugin's `PostDisconnect` runs
+     only for a session whose `take` returned true, at most once; `UStep`: + `update` — the
+     composed system);
   3. the token bucket as an interleaving transition system with counter abstraction for the
-     takers (`qstep`), the ticker's load and store being separate steps.
+     takers (`qstep`), the ticker's load and compare-and-swap being separate steps (a failed
+     compare-and-swap starts the refill over).
 Counters are Go `int32`; the model uses `Int` (assumption: fewer than 2^31 concurrent operations).
 -/
 namespace Teleport.Overload
@@ -32,10 +35,11 @@ def CL.new (maxConn : Int) : CL := ⟨maxConn, 0, 0⟩
 /-- `update(maxConn)`: `atomic.StoreInt32(&c.lim, maxConn)` -/
 def CL.update (c : CL) (maxConn : Int) : CL := { c with lim := maxConn }
 
-/-- `take()`: `x := Add(&tmp,1); if x <= Load(&lim) { Add(&now,1); return true }; Add(&tmp,-1); return false` -/
+/-- `take()`: `x := Add(&tmp,1); if lim := Load(&lim); lim <= 0 || x <= lim { Add(&now,1); return true };
+    Add(&tmp,-1); return false` — a limit `<= 0` means no limit; the connection is counted all the same. -/
 def CL.take (c : CL) : CL × Bool :=
   let x := c.tmp + 1
-  if x ≤ c.lim then ({ c with tmp := x, now := c.now + 1 }, true)
+  if c.lim ≤ 0 ∨ x ≤ c.lim then ({ c with tmp := x, now := c.now + 1 }, true)
   else ({ c with tmp := x - 1 }, false)
 
 /-- `release()`: `Add(&now,-1); Add(&tmp,-1)` -/
@@ -82,7 +86,7 @@ def QL.take (q : QL) : QL × Bool :=
 def refill (limit once v : Int) : Int :=
   if v < 0 then once else if v + once > limit then limit else v + once
 
-/-- `updateToken()` without interference (load, compute, store). -/
+/-- `updateToken()` without interference (load, compute, compare-and-swap succeeds at once). -/
 def QL.tick (q : QL) : QL := { q with tokens := refill q.limit q.once q.tokens }
 
 /-! ## 1c. Overloader (overloader.go) — sequential -/
@@ -108,13 +112,12 @@ def hqDel (hq : List (String × QL)) (k : String) : List (String × QL) := hq.fi
 def hqSet (hq : List (String × QL)) (k : String) (q : QL) : List (String × QL) :=
   if hq.any (·.1 == k) then hq.map (fun p => if p.1 == k then (k, q) else p) else hq ++ [(k, q)]
 
-/-- `updateConnLimiter`: `MaxConn <= 0` drops the limiter; no limiter → a fresh one (counters 0,
-    whatever sessions exist); otherwise only the limit is stored. -/
+/-- `updateConnLimiter`: no limiter (only inside `New`) → a fresh one; otherwise only the limit is
+    stored, whatever its sign: the limiter and its counters are kept. -/
 def updConn (old : Option CL) (c : Conf) : Option CL :=
-  if c.maxConn ≤ 0 then none
-  else match old with
-    | none => some (CL.new c.maxConn)
-    | some l => some (l.update c.maxConn)
+  match old with
+  | none => some (CL.new c.maxConn)
+  | some l => some (l.update c.maxConn)
 
 /-- `updateTotalQPSLimiter` (`none` = panic inside `newQPSLimiter`/`update`). -/
 def updTotal (old : Option QL) (c : Conf) : Option (Option QL) :=
@@ -147,13 +150,13 @@ def OV.update (o : OV) (c : Conf) : Option OV := do
 /-- `New(initLimitConfig)` -/
 def OV.new (c : Conf) : Option OV := OV.update ⟨⟨0, 0, 0, []⟩, none, none, []⟩ c
 
-/-- `takeConn()`: no limiter admits. -/
+/-- `takeConn()`: no limiter admits (zero-value `Overloader` only: `New` always creates one). -/
 def OV.takeConn (o : OV) : OV × Bool :=
   match o.conn with
   | none => (o, true)
   | some l => let r := l.take; ({ o with conn := some r.1 }, r.2)
 
-/-- `releaseConn()` (= `PostDisconnect`) -/
+/-- `releaseConn()` (called by `PostDisconnect` for a session found in `connHolders`) -/
 def OV.releaseConn (o : OV) : OV :=
   match o.conn with
   | none => o
@@ -198,7 +201,8 @@ def dispatch (isCall found : Bool) (d : Decision) : Handled :=
 
 /-! ## 1d. accept path + close paths composed with the plugin — sequential -/
 
-/-- one server-side session: was it admitted by `postAccept`, has a close path run for it. -/
+/-- one server-side session: was it admitted by `postAccept` (then the plugin put it in
+    `connHolders`), has a close path run for it. -/
 structure Sess where
   admitted : Bool
   isOpen : Bool
@@ -216,9 +220,10 @@ inductive ConnRes
   | rejected (lim now : Int)
 deriving DecidableEq, Repr
 
-/-- `ServeConn`/`serveListener` body: `newSession`; `postAccept` → `takeConn`; when refused:
-    `sess.Close()` → `closeLocked` (CAS from `statusPreparing` succeeds) → `postDisconnect` →
-    `releaseConn` — the release of a slot that was never taken. -/
+/-- `ServeConn`/`serveListener` body: `newSession`; `postAccept` → `takeConn`, on success the
+    session is recorded in `connHolders`; when refused: `sess.Close()` → `closeLocked` (CAS from
+    `statusPreparing` succeeds) → `postDisconnect` → the plugin's `PostDisconnect` does not find
+    the session in `connHolders` and releases nothing. -/
 def Sys.connect (s : Sys) : Sys × ConnRes :=
   let (o1, ok) := s.ov.takeConn
   if ok then ({ ov := o1, sess := s.sess ++ [⟨true, true⟩] }, .admitted)
@@ -226,17 +231,39 @@ def Sys.connect (s : Sys) : Sys × ConnRes :=
     let (lim, now) := match o1.conn with
       | some l => (l.lim, l.now)
       | none => (0, 0)
-    ({ ov := o1.releaseConn, sess := s.sess ++ [⟨false, false⟩] }, .rejected lim now)
+    ({ ov := o1, sess := s.sess ++ [⟨false, false⟩] }, .rejected lim now)
 
 /-- `Close()` or remote disconnect of session `i`: the status CAS / status switch lets exactly the
-    first close path through; it runs `postDisconnect` once. A second close is a no-op. -/
+    first close path through; it runs `postDisconnect` once: `PostDisconnect` removes the session
+    from `connHolders` and calls `releaseConn` iff it was there. A second close is a no-op. -/
 def Sys.close (s : Sys) (i : Nat) : Sys :=
   match s.sess[i]? with
-  | some ⟨a, true⟩ => { ov := s.ov.releaseConn, sess := s.sess.set i ⟨a, false⟩ }
+  | some ⟨a, true⟩ =>
+    { ov := if a then s.ov.releaseConn else s.ov, sess := s.sess.set i ⟨a, false⟩ }
   | _ => s
 
 /-- sessions in the peer's index (`CountSession`). -/
 def Sys.live (s : Sys) : Nat := s.sess.countP fun x => x.admitted && x.isOpen
+
+/-- one operation of a sequential connection history. -/
+inductive SOp
+  | connect
+  | close (i : Nat)
+  | update (maxConn : Int)   -- `Update` of `MaxConn` alone, any value (`<= 0`: no limit)
+deriving DecidableEq, Repr
+
+/-- `Update(cfg)` with only `MaxConn` changed (a panicking `Update` leaves the system as it was). -/
+def Sys.update (s : Sys) (n : Int) : Sys :=
+  match s.ov.update { s.ov.conf with maxConn := n } with
+  | some o => { s with ov := o }
+  | none => s
+
+/-- replay of a sequential history of connects, closes and updates. -/
+def Sys.run (s : Sys) : List SOp → Sys
+  | [] => s
+  | .connect :: r => Sys.run s.connect.1 r
+  | .close i :: r => Sys.run (s.close i) r
+  | .update n :: r => Sys.run (s.update n) r
 
 /-- indices of the sessions satisfying `p`, in arrival order. -/
 def Sys.indices (s : Sys) (p : Sess → Bool) : List Nat :=
@@ -261,20 +288,18 @@ structure Ent where
   x : Int
 deriving DecidableEq, Repr
 
-/-- shared counters, the ghost `hi` (largest limit in force so far), the entities in arrival order,
-    and the rejected connections whose session is being closed by the accept path:
-    `z0` of them before the hook's `Add(&now,-1)`, `z1` between it and `Add(&tmp,-1)`. -/
+/-- shared counters, the ghosts `hi` (largest limit in force so far) and `unl` (a limit `<= 0`, i.e.
+    no limit, has been in force at some moment), the entities in arrival order. -/
 structure St where
   lim : Int
   now : Int
   tmp : Int
   hi : Int
+  unl : Bool
   ents : List Ent
-  z0 : Nat
-  z1 : Nat
 deriving DecidableEq, Repr
 
-def St.init (lim : Int) : St := ⟨lim, 0, 0, lim, [], 0, 0⟩
+def St.init (lim : Int) : St := ⟨lim, 0, 0, lim, decide (lim ≤ 0), []⟩
 
 /-- the entity has been told `true` (or is about to be) and has not finished releasing. -/
 def Ent.adm (e : Ent) : Bool :=
@@ -290,23 +315,26 @@ def Ent.isHolding (e : Ent) : Bool :=
 /-- number of concurrently admitted entities. -/
 def St.admitted (s : St) : Nat := s.ents.countP Ent.adm
 
-/-- the limiter in isolation: every atomic operation of `take` and of a `release` that is called
-    only by an entity whose `take` returned true. Any number of entities, any interleaving. -/
+/-- every atomic operation of `take` and of `release`; `release` is run only by an entity whose
+    `take` returned true (`PostDisconnect` finds it in `connHolders`) and only once (the entry is
+    deleted under the same lock); an entity whose `take` returned false leaves after its
+    `Add(&tmp,-1)` — its session's disconnect hook touches no counter.
+    Any number of entities, any interleaving. -/
 inductive Step : St → St → Prop
   | arrive (s : St) :
       Step s { s with tmp := s.tmp + 1, ents := s.ents ++ [⟨.gotX, s.tmp + 1⟩] }
   | checkOk (s : St) (pre post : List Ent) (x : Int) :
-      s.ents = pre ++ ⟨.gotX, x⟩ :: post → x ≤ s.lim →
+      s.ents = pre ++ ⟨.gotX, x⟩ :: post → (s.lim ≤ 0 ∨ x ≤ s.lim) →
       Step s { s with ents := pre ++ ⟨.willInc, x⟩ :: post }
   | checkNo (s : St) (pre post : List Ent) (x : Int) :
-      s.ents = pre ++ ⟨.gotX, x⟩ :: post → ¬ x ≤ s.lim →
+      s.ents = pre ++ ⟨.gotX, x⟩ :: post → ¬ (s.lim ≤ 0 ∨ x ≤ s.lim) →
       Step s { s with ents := pre ++ ⟨.willDec, x⟩ :: post }
   | inc (s : St) (pre post : List Ent) (x : Int) :
       s.ents = pre ++ ⟨.willInc, x⟩ :: post →
       Step s { s with now := s.now + 1, ents := pre ++ ⟨.holding, x⟩ :: post }
   | dec (s : St) (pre post : List Ent) (x : Int) :
       s.ents = pre ++ ⟨.willDec, x⟩ :: post →
-      Step s { s with tmp := s.tmp - 1, ents := pre ++ post, z0 := s.z0 + 1 }
+      Step s { s with tmp := s.tmp - 1, ents := pre ++ post }
   | rel1 (s : St) (pre post : List Ent) (x : Int) :
       s.ents = pre ++ ⟨.holding, x⟩ :: post →
       Step s { s with now := s.now - 1, ents := pre ++ ⟨.rel1, x⟩ :: post }
@@ -314,19 +342,12 @@ inductive Step : St → St → Prop
       s.ents = pre ++ ⟨.rel1, x⟩ :: post →
       Step s { s with tmp := s.tmp - 1, ents := pre ++ post }
 
-/-- ... plus `Update` with a positive limit at any moment. -/
+/-- ... plus `Update` with any limit (`<= 0`: no limit) at any moment: the system composed of the
+    plugin and the accept / close paths. -/
 inductive UStep : St → St → Prop
   | base {s t : St} : Step s t → UStep s t
-  | update (s : St) (n : Int) : 0 < n → UStep s { s with lim := n, hi := max s.hi n }
-
-/-- ... plus what the accept path does as coded: the session of a rejected connection is closed
-    and its disconnect hook runs `release` (`Add(&now,-1)`, then `Add(&tmp,-1)`). -/
-inductive CStep : St → St → Prop
-  | base {s t : St} : UStep s t → CStep s t
-  | zrel1 (s : St) (k : Nat) : s.z0 = k + 1 →
-      CStep s { s with now := s.now - 1, z0 := k, z1 := s.z1 + 1 }
-  | zrel2 (s : St) (k : Nat) : s.z1 = k + 1 →
-      CStep s { s with tmp := s.tmp - 1, z1 := k }
+  | update (s : St) (n : Int) :
+      UStep s { s with lim := n, hi := max s.hi n, unl := s.unl || decide (n ≤ 0) }
 
 /-- reflexive-transitive closure. -/
 inductive Reach (R : St → St → Prop) (s : St) : St → Prop
@@ -337,7 +358,8 @@ inductive Reach (R : St → St → Prop) (s : St) : St → Prop
 
 /-- shared token count; `passed` = takers between their `Load(&tokens) > 0` and their
     `Add(&tokens,-1)` (the loaded value is not used afterwards, so a count describes them exactly);
-    `tk` = the ticker between its load (value kept) and its store; ghost counters. -/
+    `tk` = the ticker between its load (value kept) and its compare-and-swap; ghost counters
+    (`ticks` counts completed refills, `retries` failed compare-and-swaps). -/
 structure QSt where
   tokens : Int
   passed : Nat
@@ -345,17 +367,18 @@ structure QSt where
   adm : Nat
   rej : Nat
   ticks : Nat
+  retries : Nat
 deriving DecidableEq, Repr
 
 inductive QEv
   | takeLoad    -- a taker executes `Load(&tokens)`; `<= 0` returns false at once
   | takeAdd     -- a taker that passed the check executes `Add(&tokens,-1)`; result `>= 0` admits
-  | tickLoad    -- `v = Load(&tokens)`
-  | tickStore   -- `Store(&tokens, f(v))`
-  | tick        -- load, compute and store without interference
+  | tickLoad    -- `old := Load(&tokens)`
+  | tickCas     -- `CompareAndSwap(&tokens, old, f(old))`: done when it succeeds, else load again
+  | tick        -- load, compute and compare-and-swap without interference
 deriving DecidableEq, Repr
 
-def QSt.init (limit : Int) : QSt := ⟨limit, 0, none, 0, 0, 0⟩
+def QSt.init (limit : Int) : QSt := ⟨limit, 0, none, 0, 0, 0, 0⟩
 
 /-- one atomic operation; `none` = not enabled. `limit`, `once` are constant. -/
 def qstep (limit once : Int) (s : QSt) : QEv → Option QSt
@@ -371,9 +394,11 @@ def qstep (limit once : Int) (s : QSt) : QEv → Option QSt
     match s.tk with
     | none => some { s with tk := some s.tokens }
     | some _ => none
-  | .tickStore =>
+  | .tickCas =>
     match s.tk with
-    | some v => some { s with tokens := refill limit once v, tk := none, ticks := s.ticks + 1 }
+    | some v =>
+      some (if s.tokens = v then { s with tokens := refill limit once v, tk := none, ticks := s.ticks + 1 }
+            else { s with tk := none, retries := s.retries + 1 })
     | none => none
   | .tick =>
     match s.tk with
@@ -383,10 +408,5 @@ def qstep (limit once : Int) (s : QSt) : QEv → Option QSt
 def qrun (limit once : Int) : QSt → List QEv → Option QSt
   | s, [] => some s
   | s, e :: es => (qstep limit once s e).bind fun t => qrun limit once t es
-
-/-- the schedule never lets a taker run between the ticker's load and store. -/
-def QEv.atomicTick : QEv → Bool
-  | .tickLoad | .tickStore => false
-  | _ => true
 
 end Teleport.Overload
